@@ -10,7 +10,7 @@ Here we define extend the pairing functions to Z
 from collections import deque
 from functools import cache, lru_cache
 from itertools import combinations
-from math import floor, sqrt
+from math import floor, isqrt
 
 import numpy as np
 from sympy import factorint, multiplicity
@@ -19,6 +19,18 @@ from ..grid.grid import Coordinates
 from ..grid.spatial import CTMCGrid
 from ..numerical.numbers import a_n, upper_bound_a_n
 from ..tools.generic import lazy_indices_product
+
+
+def _integer_root(z: int, n: int) -> int:
+    """:return: the largest integer m such that m**n <= z (exact integer arithmetic)"""
+    if n == 2:
+        return isqrt(z)
+    m = int(round(z ** (1 / n)))
+    while m**n > z:
+        m -= 1
+    while (m + 1) ** n <= z:
+        m += 1
+    return m
 
 
 class Pairing:
@@ -62,13 +74,11 @@ class Cantor(Pairing):
 
     @staticmethod
     def projection2d(z: int) -> tuple[int, int]:
-        omega = floor((-1 + sqrt(1 + 8 * z)) / 2)
-        return int(z - omega * (omega + 1) / 2), int(omega * (omega + 3) / 2 - z)
+        omega = (isqrt(1 + 8 * z) - 1) // 2
+        return z - omega * (omega + 1) // 2, omega * (omega + 3) // 2 - z
 
 
 class RosenbergStrong(Pairing):
-    _epsilon = 1e-8
-
     @lru_cache(maxsize=2**5)
     def pairing(self, x: tuple[int, ...]) -> int:
         if (d := len(x)) > 1:
@@ -83,13 +93,13 @@ class RosenbergStrong(Pairing):
         if dim == 1:
             return (z,)
 
-        # note:: I add epsilon in "m = floor(z**(1/dim) + epsilon)" because of overflow.
+        # note:: exact integer root: z**(1/dim) is subject to rounding errors.
         # For example 64**(1/3) gives 3.99999999 which will be rounded to 3 instead of 4
-        m = floor(z ** (1 / dim) + self._epsilon)
+        m = _integer_root(z, dim)
         m_d1 = m ** (dim - 1)
         m_d = m * m_d1
         aux = (m + 1) ** (dim - 1) - m_d1
-        xd = m - floor(max(0, z - m_d - m_d1) / aux)
+        xd = m - max(0, z - m_d - m_d1) // aux
         p = self.projection(z - m_d - (m - xd) * aux, dim=dim - 1)
         return p + (xd,)
 
@@ -100,7 +110,7 @@ class RosenbergStrong(Pairing):
 
     @staticmethod
     def projection2d(z: int) -> tuple[int, int]:
-        m = floor(sqrt(z))
+        m = isqrt(z)
         z1 = z - m**2
         if z1 < m:
             return z1, m
@@ -118,7 +128,7 @@ class Szudzik(Pairing):
 
     @staticmethod
     def projection2d(z: int) -> tuple[int, int]:
-        m = floor(sqrt(z))
+        m = isqrt(z)
         z1 = z - m**2
         if z1 < m:
             return z1, m
